@@ -1009,3 +1009,57 @@ def bound_comparisons_untruncated(ctx, rid, body, bound_pred, key, depth=2):
                        f"way ({desc}): a large enough amount wraps around and passes the bound",
                        where=where, sample=f"{ro[:50]} vs {bound[:40]}: no truncating cast")
     return n
+
+
+# ---------------------------------------------------------------- values chosen by a branch
+def conditional_defs(fv, operand):
+    """An operand whose value is chosen by a branch (`let x = if c { A } else { B }`, match arms, Option presence):
+    follows plain moves to the local with several definitions and returns
+      (root_local, [(block, [operand expressions of that definition])], [(switch block, condition expression)])
+    where the switches are those that decide which definition is taken: at least two of their targets lead to
+    different, non-empty sets of definitions.  A single-definition operand gives one definition and no switch."""
+    b = fv.b
+    if operand.place is None or not operand.place.is_local():
+        return None, [(None, [fv.expr(operand)])], []
+    l = operand.place.local
+    seen = set()
+    while l not in seen:
+        seen.add(l)
+        sd = fv.single_def(l)
+        if sd is None or sd[1] == "T":
+            break
+        st = sd[2]
+        if st.kind == "a" and st.rv.op == "use" and st.rv.ops and st.rv.ops[0].place is not None \
+           and st.rv.ops[0].place.is_local():
+            l = st.rv.ops[0].place.local
+            continue
+        break
+    live = fv.live_blocks()
+    defs = []
+    for (bi, idx, obj) in fv.defs.get(l, []):
+        if bi not in live:
+            continue
+        if idx == "T":
+            defs.append((bi, [fv._call_expr(obj, 0)]))
+        elif obj.kind == "a":
+            ops = [fv.expr(o) for o in obj.rv.ops] if obj.rv.ops else []
+            if obj.rv.op == "agg" and isinstance(obj.rv.a, tuple) and obj.rv.a[0] == "adt":
+                ops = ops + [("k", f"{obj.rv.a[1].name}::{obj.rv.a[2]}")]
+            if obj.rv.op in ("ref", "ptr", "discr") and obj.rv.place is not None:
+                ops.append(fv.place_expr(obj.rv.place))
+            defs.append((bi, ops))
+    dblocks = {bi for bi, _ in defs}
+    sw = []
+    if len(dblocks) > 1:
+        for s in sorted(live):
+            t = b.term(s)
+            if t.kind != "switch":
+                continue
+            sets = []
+            for tg in set(fv.succ[s]):
+                r = fv.reach(tg, cut_nodes={s}) & dblocks
+                if r:
+                    sets.append(frozenset(r))
+            if len(sets) >= 2 and len(set(sets)) >= 2:
+                sw.append((s, fv.expr(t.discr)))
+    return l, defs, sw
